@@ -26,7 +26,9 @@ def corrupt(table, v, rng):
                 env[i] = y
                 return ('pkt', c, env)
         if b[0] == 'elem' and b[1][0] == 'leaf' and b[1][1][0] == 'int':
-            env[i] = rng.choice([2 ** (8 * b[1][1][1]) + 3, -(2 ** (8 * b[1][1][1])) - 1, None, b'x'])
+            n8, sg = 8 * b[1][1][1], b[1][1][2]
+            # far out of range, and the first values beyond either end of the range of THIS width and signedness
+            env[i] = rng.choice([2 ** n8 + 3, -(2 ** n8) - 1, None, b'x'] + ([2 ** (n8 - 1), -(2 ** (n8 - 1)) - 1, 2 ** n8 - 1] if sg else [-1, 2 ** n8, -(2 ** (n8 - 1))]))
             return ('pkt', c, env)
         if b[0] == 'elem' and b[1][0] == 'leaf' and b[1][1][0] in ('dsized', 'dmarker', 'deos'):
             env[i] = rng.choice([None, 7, [], [1, 2]])        # wrong types with and without a length
@@ -94,6 +96,8 @@ def run(tier, seed, rng):
     ng = 60 if tier == 'quick' else 2000
     feats = lambda g: dict(codegen_opts=(g % 2 == 1))
 
+    BAD = {}        # values made unserializable on purpose (kept alive: looked up by identity)
+
     def extra(G, c, vg, rng):
         v = vg.try_value(c)
         if v is not None:
@@ -101,6 +105,7 @@ def run(tier, seed, rng):
                 bad = corrupt(G.table, v, rng)
                 if bad is not None:
                     G.add_pack(c, bad)
+                    BAD[id(bad)] = bad
         G.add_extra(c, dict(op='api', raw=bytes(rng.randrange(256) for _ in range(rng.randrange(4))).hex(), offset=0))
     groups = pktprops.make_groups(rng, ng, feats, values_per_class=2 if tier == 'quick' else 4, offsets=(3,), maxcuts=20, flips=4,
                                   defaults=False, extra=extra)
@@ -155,6 +160,10 @@ def run(tier, seed, rng):
                 failures.append(dict(kind='oracle', sig='nonbytes', what=f"input that is not bytes was not rejected with ValueError: {o.get('nonbytes')}",
                                      classes=pktprops.class_source(groups, r['group']), case=r['op']))
             continue
+        if r['kind'] == 'pack' and id(r.get('value')) in BAD and isinstance(o.get('ok'), str):
+            dist['bad_values_accepted'] = dist.get('bad_values_accepted', 0) + 1
+            failures.append(dict(kind='oracle', sig='bad-value-accepted', what=f"a value that does not fit its declaration (out of range by one, wrong type) was serialized to {o['ok']} instead of raising a PacketError",
+                                 classes=pktprops.class_source(groups, r['group']), cls=decl.cname(r['c']), value=decl.py_value(r['value']), observed=o))
         outs = []
         if r['kind'] == 'roundtrip':
             outs.append((o, 'unpacking'))
